@@ -74,6 +74,20 @@ func orderInsensitive(info *types.Info, fd *ast.FuncDecl, rs *ast.RangeStmt) (bo
 	}
 	localDefs := map[types.Object]bool{}
 	ast.Inspect(rs.Body, func(n ast.Node) bool {
+		if ds, ok := n.(*ast.DeclStmt); ok {
+			// var x T declared inside the loop body: an iteration-local temporary
+			if gd, ok := ds.Decl.(*ast.GenDecl); ok && gd.Tok == token.VAR {
+				for _, sp := range gd.Specs {
+					if vs, ok := sp.(*ast.ValueSpec); ok {
+						for _, id := range vs.Names {
+							if o := info.Defs[id]; o != nil {
+								localDefs[o] = true
+							}
+						}
+					}
+				}
+			}
+		}
 		if as, ok := n.(*ast.AssignStmt); ok && as.Tok == token.DEFINE {
 			for _, l := range as.Lhs {
 				if id, ok := l.(*ast.Ident); ok {
@@ -113,6 +127,24 @@ func orderInsensitive(info *types.Info, fd *ast.FuncDecl, rs *ast.RangeStmt) (bo
 		})
 		return found
 	}
+	// onlyConstEffects: every assignment in the loop body stores a constant into a plain variable (an existence search)
+	onlyConstEffects := true
+	ast.Inspect(rs.Body, func(n ast.Node) bool {
+		switch s := n.(type) {
+		case *ast.AssignStmt:
+			if s.Tok == token.DEFINE {
+				return true
+			}
+			for i, l := range s.Lhs {
+				if _, isId := l.(*ast.Ident); !isId || i >= len(s.Rhs) || !isConst(s.Rhs[i]) || s.Tok != token.ASSIGN {
+					onlyConstEffects = false
+				}
+			}
+		case *ast.IncDecStmt, *ast.ExprStmt, *ast.ReturnStmt, *ast.GoStmt, *ast.DeferStmt, *ast.SendStmt:
+			onlyConstEffects = false
+		}
+		return true
+	})
 	var check func(s ast.Stmt) (bool, string)
 	checkList := func(l []ast.Stmt) (bool, string) {
 		for _, s := range l {
@@ -170,6 +202,9 @@ func orderInsensitive(info *types.Info, fd *ast.FuncDecl, rs *ast.RangeStmt) (bo
 		case *ast.BranchStmt:
 			if s.Tok == token.CONTINUE {
 				return true, ""
+			}
+			if onlyConstEffects {
+				return true, "" // existence search: flag = constant; break
 			}
 			return false, "break inside a map iteration (the set of visited keys depends on the order)"
 		case *ast.ReturnStmt:
